@@ -776,6 +776,61 @@ def probe_directory_attribute(exe, base):
     return fails
 
 
+def probe_allow_modified_outputs(exe, base):
+    """`allow-modified-outputs: true` (docs/buildsystem.rst): the outputs may be modified independently without invalidating the result;
+    "the command will be rerun if the outputs are missing".  Everything else is as for any command: a changed definition or a changed
+    input re-runs it (C09) and the outputs equal a clean build's (C08).  One small history per clause."""
+    fails = []
+
+    def run(d, script):
+        open(os.path.join(d, "build.llbuild"), "w").write(
+            'client:\n  name: basic\n  version: 0\n\ntargets:\n  "": ["out"]\n\ncommands:\n  "C":\n    tool: shell\n'
+            '    inputs: ["in"]\n    outputs: ["out"]\n    args: ["/bin/sh", "-c", "%s"]\n    allow-modified-outputs: true\n' % script)
+        try:
+            os.unlink(os.path.join(d, "log"))
+        except FileNotFoundError:
+            pass
+        p = subprocess.run([exe, "buildsystem", "build", "-f", "build.llbuild", "--db", "build.db", "--serial"], cwd=d,
+                           stdout=subprocess.PIPE, stderr=subprocess.STDOUT, timeout=60)
+        ran = os.path.exists(os.path.join(d, "log"))
+        out = open(os.path.join(d, "out")).read() if os.path.exists(os.path.join(d, "out")) else None
+        return p.returncode, ran, out
+
+    def stamp(path, t):
+        os.utime(path, ns=((BASE_T + t) * 10**9, (BASE_T + t) * 10**9))
+    s1 = "echo C >> log; sed s/^/A/ in > out"
+    s2 = "echo C >> log; sed s/^/B/ in > out"
+    for clause in ("definition-changed", "input-changed", "output-modified", "output-removed"):
+        d = os.path.join(base, "amo-" + clause)
+        shutil.rmtree(d, ignore_errors=True)
+        os.makedirs(d)
+        open(os.path.join(d, "in"), "w").write("1\n")
+        stamp(os.path.join(d, "in"), 1)
+        first = run(d, s1)
+        script, want_ran, want_out = s1, None, None
+        if clause == "definition-changed":
+            script, want_ran, want_out = s2, True, "B1\n"
+        elif clause == "input-changed":
+            open(os.path.join(d, "in"), "w").write("22\n")
+            stamp(os.path.join(d, "in"), 50)
+            want_ran, want_out = True, "A22\n"
+        elif clause == "output-modified":
+            open(os.path.join(d, "out"), "w").write("stripped\n")
+            stamp(os.path.join(d, "out"), 60)
+            want_ran, want_out = False, "stripped\n"
+        else:
+            os.unlink(os.path.join(d, "out"))
+            want_ran, want_out = True, "A1\n"
+        second = run(d, script)
+        if first != (0, True, "A1\n") or second != (0, want_ran, want_out):
+            fails.append({"what": "allow-modified-outputs, %s: first build %s, second build %s; expected the command %s and `out` = %r "
+                                  "(what a clean build of the final state gives, resp. the independently modified output)" % (
+                                      clause, first, second, "to run" if want_ran else "not to run", want_out),
+                          "kind": "allow-modified-outputs", "clause": clause, "route": "e2e", "input": {"clause": clause, "builds": [first, second]}})
+        shutil.rmtree(d, ignore_errors=True)
+    return fails
+
+
 class Check(PropertyCheck):
     prop = "C08"
     module = "LLBuild.Props.C08"
@@ -807,6 +862,7 @@ class Check(PropertyCheck):
         shutil.rmtree(base, ignore_errors=True)
         os.makedirs(base)
         res.oracle_failures += probe_directory_attribute(exe, base)
+        res.oracle_failures += probe_allow_modified_outputs(exe, base)
         n = 1000 if ctx.thorough else 110
         seeds = [ctx.rng.next() for _ in range(n)]
         worlds = [None] * n
